@@ -226,7 +226,12 @@ template<typename T> std::string readout_ebpps(const ebpps_sketch<T>& s) {
   pin_lib_rng(777);     // the partial item is included in the result with probability frac(c)
   auto res = s.get_result();
   std::vector<T> items(res.begin(), res.end());
-  j.arr("result_seed777", items);
+  j.arr("q_result_seed777", items);
+  // stored sample (no public getter for the partial item): private state, read only
+  std::vector<T> full(s.sample_.data_.begin(), s.sample_.data_.end());
+  j.arr("full_items", full).put("has_partial_item", s.sample_.has_partial_item());
+  if (s.sample_.has_partial_item()) j.put("partial_item", T(*s.sample_.partial_item_));
+  j.put("rho", s.rho_).put("max_weight", s.wt_max_);
   return j.done();
 }
 template<typename T> void register_ebpps(const std::string& name, int nvariants) {
@@ -303,7 +308,11 @@ template<typename T> std::string readout_tdigest(const tdigest<T>& s0) {
   const double lo = s.get_min_value(), hi = s.get_max_value();
   for (int i = 0; i <= 10; ++i) ranks.push_back(s.get_rank(static_cast<T>(lo + (hi - lo) * i / 10.0)));
   for (double q : {0.0, 0.01, 0.1, 0.25, 0.5, 0.75, 0.9, 0.99, 1.0}) qs.push_back(s.get_quantile(q));
-  j.arr("ranks", ranks).arr("quantiles", qs);
+  j.arr("q_ranks", ranks).arr("q_quantiles", qs);
+  // stored state (no public getter): centroids in order and buffered values, private members read only
+  std::vector<T> means, buf(s0.buffer_.begin(), s0.buffer_.end()); std::vector<uint64_t> ws;
+  for (const auto& c : s0.centroids_) { means.push_back(c.get_mean()); ws.push_back(c.get_weight()); }
+  j.arr("centroid_means", means).arr("centroid_weights", ws).arr("buffered_values", buf).put("reverse_merge", bool(s0.reverse_merge_));
   return j.done();
 }
 template<typename T> void register_tdigest(const std::string& name, int nvariants) {
@@ -490,7 +499,7 @@ template<typename T> std::string readout_density(const density_sketch<T>& s) {
   if (!s.is_empty()) {
     std::vector<T> est;
     for (int i = 0; i < 4; ++i) { std::vector<T> q(s.get_dim(), static_cast<T>(-0.9 + 0.6 * i)); est.push_back(s.get_estimate(q)); }
-    j.arr("estimates", est);
+    j.arr("q_estimates", est);
   }
   return j.done();
 }
